@@ -2,6 +2,8 @@ package sim
 
 import (
 	"encoding/base64"
+	"sort"
+	"strings"
 	"time"
 )
 
@@ -119,4 +121,112 @@ type TornSpec struct {
 	All       bool    `json:"all,omitempty"`
 	Frac      float64 `json:"frac"`
 	FailErrno string  `json:"fail_errno,omitempty"`
+}
+
+// swarmFlags draws a random subset of csvq's session flags that change how
+// tables are parsed, compared and written without changing what the generated
+// programs mean (no NO_HEADER, no delimiter changes). Every oracle that
+// compares runs uses the same flags on both sides.
+func swarmFlags(r *Rng, p float64, outputParsed ...bool) map[string]string {
+	parsed := len(outputParsed) > 0 && outputParsed[0] // the oracle reads result sets from standard output as plain CSV
+	if !r.Bool(p) {
+		return nil
+	}
+	f := map[string]string{}
+	add := func(prob float64, name string, vals ...string) {
+		if r.Bool(prob) {
+			f[name] = vals[r.Intn(len(vals))]
+		}
+	}
+	if !parsed {
+		add(0.35, "STRIP_ENDING_LINE_BREAK", "true") // (also strips the line break after a printed result set)
+	}
+	add(0.3, "LINE_BREAK", "CRLF", "LF", "CR")
+	add(0.25, "WITHOUT_NULL", "true")
+	if !parsed {
+		// (under strict equality REPLACE ... USING (id) does not match the integer 1 with
+		// the string '1' of a CSV cell: the generated procedures would mean something else)
+		add(0.2, "STRICT_EQUAL", "true")
+	}
+	if !parsed {
+		add(0.2, "ENCLOSE_ALL", "true")
+	}
+	add(0.15, "ANSI_QUOTES", "true")
+	add(0.15, "SCIENTIFIC_NOTATION", "true")
+	add(0.15, "TIMEZONE", "UTC", "Asia/Tokyo", "America/Los_Angeles")
+	add(0.1, "COUNT_DIACRITICAL_SIGN", "true")
+	add(0.1, "EAST_ASIAN_ENCODING", "true")
+	add(0.1, "JSON_ESCAPE", "HEX", "HEXALL", "BACKSLASH")
+	add(0.1, "PRETTY_PRINT", "true")
+	if len(f) == 0 {
+		return nil
+	}
+	return f
+}
+
+// mergeFlags returns a ∪ b (b wins).
+func mergeFlags(a, b map[string]string) map[string]string {
+	if len(a) == 0 && len(b) == 0 {
+		return nil
+	}
+	m := map[string]string{}
+	for k, v := range a {
+		m[k] = v
+	}
+	for k, v := range b {
+		m[k] = v
+	}
+	return m
+}
+
+var flagToCLIAll = map[string]string{"IMPORT_FORMAT": "--import-format", "DELIMITER": "--delimiter", "ALLOW_UNEVEN_FIELDS": "--allow-uneven-fields",
+	"DELIMITER_POSITIONS": "--delimiter-positions", "JSON_QUERY": "--json-query", "ENCODING": "--encoding", "NO_HEADER": "--no-header", "WITHOUT_NULL": "--without-null",
+	"STRIP_ENDING_LINE_BREAK": "--strip-ending-line-break", "LINE_BREAK": "--line-break", "STRICT_EQUAL": "--strict-equal", "ENCLOSE_ALL": "--enclose-all",
+	"ANSI_QUOTES": "--ansi-quotes", "SCIENTIFIC_NOTATION": "--scientific-notation", "TIMEZONE": "--timezone", "COUNT_DIACRITICAL_SIGN": "--count-diacritical-sign",
+	"EAST_ASIAN_ENCODING": "--east-asian-encoding", "JSON_ESCAPE": "--json-escape", "PRETTY_PRINT": "--pretty-print"}
+
+// cliFlagArgs spells a flag map as command line options of the real binary
+// (sorted by name).
+func cliFlagArgs(flags map[string]string) []string {
+	var names, args []string
+	for n := range flags {
+		names = append(names, n)
+	}
+	sort.Strings(names)
+	for _, n := range names {
+		opt, ok := flagToCLIAll[n]
+		if !ok {
+			continue
+		}
+		switch v := flags[n]; v {
+		case "true":
+			args = append(args, opt)
+		case "false":
+		default:
+			args = append(args, opt, v)
+		}
+	}
+	return args
+}
+
+// avoidBareCR replaces LINE_BREAK CR by CRLF for scenarios that create tables or
+// rewrite JSON / JSON Lines tables: csvq's readers cannot read back text that ends in
+// a bare carriage return (go-text's CSV reader: "bufio: invalid use of UnreadRune")
+// nor JSON Lines separated by CR, which is what it writes for such tables under
+// --line-break CR. That is a limitation of reading (inputs with classic Mac line
+// breaks), not of the commit protocol; tables that have their own line break keep
+// it when they are rewritten, and for those CR stays in the mix.
+func avoidBareCR(flags map[string]string, files []FileSpec, program string) {
+	if flags["LINE_BREAK"] != "CR" {
+		return
+	}
+	bad := strings.Contains(program, "CREATE TABLE")
+	for _, f := range files {
+		if strings.HasSuffix(f.Name, ".json") || strings.HasSuffix(f.Name, ".jsonl") {
+			bad = true
+		}
+	}
+	if bad {
+		flags["LINE_BREAK"] = "CRLF"
+	}
 }
